@@ -16,6 +16,7 @@ from vf import monitor as M
 from vf.cli import run_cli, NonTermination
 from vf.props import view_common as VC
 from vf.util import stable_hash, read_text
+from vf.ref import gaf as rgaf
 
 ID = "C05"
 LEVEL = "exploration"
@@ -39,7 +40,7 @@ def required(tier):
     return ["q:inside_one_node", "q:multi_node_span", "q:on_boundaries", "q:unaligned_prefix",
             "q:unaligned_suffix", "q:gap_between_indexed", "q:haplotype_contig", "q:multi_region",
             "q:single_indexed_node_contig", "q:nothing_expected", "search_step_probe_events",
-            "selection_gt_1000_records"]
+            "selection_gt_1000_records", "twin_region_queries", "twin:ends_on_node_start"]
 
 
 REQUIRED_PROBES = ("search_step_budget",)
@@ -253,6 +254,51 @@ def run_case(ctx, rng, index, casedir):
             viol.append({"kind": "unexpected_outcome", "msg": f"-r {' '.join(rstr)}: {o.brief()}", "witness": wit})
         if spans2 or touches_unaligned:
             sigs.append(stable_hash([fsig, rstr, fmt]))
+    if not big_case and rng.random() < 0.3:
+        twin_check(w.g, w.gfa, rng, index, casedir, viol, sit)
     return {"sigs": sigs, "evals": len(queries), "situations": dict(sit), "violations": viol,
             "outcomes": dict(outcomes),
             "sample": {"stable": w.stable, "mode": w.mode, "queries": [r for _c, r in queries[:4]]}}
+
+
+def twin_check(g, gfa, rng, index, casedir, viol, sit):
+    """The node set under a region is a function of the graph and the region alone: the same
+    canonical alignments written in unstable and in stable coordinates must give the same reads for
+    the same region - in particular for regions that begin or end exactly on a node boundary."""
+    from vf.gen import gaf as ggaf
+    walks = ggaf.make_walks(g, rng, rng.randint(4, 10), maxlen=4, forced=True)
+    recs = [ggaf.make_record(g, rng, wk, f"t{index}_{i}", offsets="canonical", tags="safe") for i, wk in enumerate(walks)]
+    lu = [r.line for r in recs]
+    ls = [rgaf.ref_to_stable(g, l) for l in lu]
+    paths = {}
+    for tag, lines in (("u", lu), ("s", ls)):
+        p = os.path.join(casedir, f"twin_{tag}.gaf")
+        ggaf.write_gaf(p, lines, mode="plain", final_newline=True)
+        if not run_cli(["index", p, gfa]).ok:
+            return
+        paths[tag] = p
+    coords = rgaf.Coords(g)
+    touched = sorted({n for wk in walks for n, _ in wk})
+    regions = []
+    for nid in rng.sample(touched, min(4, len(touched))):
+        nd = g.nodes[nid]
+        ext = max(x.end for x in coords.by_contig[nd.contig])
+        lo = max(0, nd.so - rng.randint(1, 8))
+        if lo < nd.so:
+            regions.append((nd.contig, lo, nd.so, "ends_on_node_start"))
+        if nd.end < ext:
+            regions.append((nd.contig, nd.end, min(ext - 1, nd.end + rng.randint(0, 8)), "starts_on_node_end"))
+        regions.append((nd.contig, nd.so, nd.end - 1, "exactly_one_node"))
+    for c, a, b, kind in regions:
+        res = {}
+        for tag in ("u", "s"):
+            out = os.path.join(casedir, f"twin_{tag}.out")
+            o = run_cli(["view", paths[tag], "-r", f"{c}:{a}-{b}", "-o", out], stale=False)
+            res[tag] = sorted(l.split("\t")[0] for l in read_text(out).split("\n") if l) if o.ok else f"<{o.kind}:{'nothing found' if 'No alignments found' in o.message else o.message[:60]}>"
+        sit["twin_region_queries"] += 1
+        sit["twin:" + kind] += 1
+        if res["u"] != res["s"]:
+            viol.append({"kind": "region_depends_on_coordinate_system",
+                         "msg": f"-r {c}:{a}-{b} ({kind}): unstable GAF gives {res['u'] if isinstance(res['u'], str) else res['u'][:8]}, "
+                                f"the same alignments in stable coordinates give {res['s'] if isinstance(res['s'], str) else res['s'][:8]}",
+                         "witness": {"region": f"{c}:{a}-{b}", "kind": kind, "unstable": res["u"], "stable": res["s"]}})
